@@ -103,12 +103,22 @@ def run(res, tier):
             return c, r1, None, None, None, None
         d1 = pl.h5(r1["h5"])
         nrec = d1["datasets"]["/PhaseSpace/data"]["dims"][0]       # records at steps 0..t1
+        outside = sr is not None and not (-nrec <= sr < nrec)      # the chosen record does not exist: the start must be refused (not wrapped around)
         step_r = t1 if sr is None else (sr % nrec)
         a2 = base(n, imp, var) + ["-i", r1["h5"], "-T", (TOTAL - step_r) / NPER, "-n", 1, "--SavePhaseSpace", 1, "--RenormalizeCharge", rn]
         if sr is not None:
             a2 += ["--InitialDistStep", sr]
         r2 = pl.run(exe, a2, wd, out="leg2_%s.h5" % tag)
-        d2 = pl.h5(r2["h5"]) if r2["rc"] == 0 else None
+        if outside:
+            produced = os.path.exists(r2["h5"])
+            for ext in ("", ".cfg", ".log"):
+                for r in (r1, r2):
+                    try:
+                        os.remove(r["h5"] + ext)
+                    except OSError:
+                        pass
+            return c, r1, d1, r2, dict(outside=True, produced=produced), step_r
+        d2 = pl.h5(r2["h5"]) if r2["rc"] == 0 and os.path.exists(r2["h5"]) else None
         for r in (r1, r2):
             for ext in ("", ".cfg", ".log"):
                 try:
@@ -122,6 +132,11 @@ def run(res, tier):
         n, imp, rn, var, st = g
         case = "n=%d impedance=%s renorm=%d split=%d startrecord=%s start=%s%s%s" % (n, imp, rn, t1, sr, st, (" options=" + "_".join(str(x) for x in VARIANTS[var])) if var else "", " first-leg-SavePhaseSpace=%d" % sv if sv != 1 else "")
         rp = dict(leg1=r1["cmd"], leg2=r2["cmd"] if r2 else None, full=fulls[g][0]["cmd"])
+        if d2 is not None and d2.get("outside"):
+            res.eval(case, pl.chash(case, "refusal"), trivial=False)
+            if d2["produced"] or "Starting the simulation" in r2["log"] or r2["rc"] not in (0, 1):
+                res.violate("C11/refusal/record-outside-the-file/not-refused", case, "record %s of a file with fewer records: results produced=%s, exit %s" % (sr, d2["produced"], r2["rc"]), replay=rp)
+            continue
         if d1 is None or d2 is None or "error" in d1 or "error" in d2 or fulls[g][1] is None:
             res.violate("C11/run-failed", case, "leg1 rc=%s leg2 rc=%s %s" % (r1["rc"], r2["rc"] if r2 else None, (r2 or r1)["log"][-200:]), replay=rp)
             continue
